@@ -35,10 +35,13 @@ def parseQ (s : String) : Option Question :=
 def parseCand (s : String) : Option Cand :=
   if s == "e" || s == "s" then some { bad := true } else
   match s.splitOn ":" with
-  | [id, qs] => do
-    let id ← id.toNat?
+  | [idf, qs] => do
+    -- header flags (t a n s f x) ride behind the id; the model carries them as one word
+    let digits := idf.toList.takeWhile Char.isDigit
+    let flags := idf.toList.dropWhile Char.isDigit
+    let id ← (String.ofList digits).toNat?
     let qs ← (listOf qs "+").mapM parseQ
-    some { id := id, qs := qs }
+    some { id := id, qs := qs, hdr := flags.foldl (fun a c => a * 256 + c.toNat) 0 }
   | _ => none
 
 def parseExtra (s : String) : Option Extra :=
